@@ -27,13 +27,14 @@ Definition c02_scope (cfg : config) (m : libmode) (h : list block) : Prop :=
    every generated history against the implementation's observation) *)
 Definition c02_full : Prop := forall cfg m h, c02_scope cfg m h -> c02_statement cfg m h.
 
-(* The part that is proved: exclusive starting LIB r0 coherent with the history (moving_scope_b); any
-   handler oracle (never failing, or failing at any call: the trace is then cut at the failing call).
-   The LIB moves freely: jumps of many blocks, branches that disagree on finality, LIB = head,
-   reorganisation and LIB jump in the same step, any retention. *)
+(* The part that is proved: a configured starting LIB r0 (exclusive or inclusive, any includeInitialLIB
+   flag) coherent with the history (moving_scope_b); any handler oracle (never failing, or failing at
+   any call: the trace is then cut at the failing call).  The LIB moves freely: jumps of many blocks,
+   branches that disagree on finality, LIB = head, reorganisation and LIB jump in the same step, any
+   retention. *)
 Definition c02_moving_lib_statement : Prop :=
-  forall cfg r0 h,
-    c_incl cfg = false ->
+  forall cfg r0 m h,
+    rooted_mode r0 m ->
     f_new (c_filter cfg) = true -> f_undo (c_filter cfg) = true -> f_irr (c_filter cfg) = true ->
     moving_scope_b r0 h = true ->
-    c02_statement cfg (LExcl r0) h.
+    c02_statement cfg m h.
